@@ -184,6 +184,13 @@ def special_molecules():
     out.append(("C16O18O", M([("C", 0, 0, 0), ("O", 16, 0, 0), ("O", 18, 0, 0)], [(0, 1, 2), (0, 2, 2)])))
     out.append(("N2H4-rad", M([("N", 0, 2, 0), ("N", 0, 0, 0)] + [("H", 0, 0, 0)] * 3, [(0, 1, 1), (0, 2, 1), (1, 3, 1), (1, 4, 1)])))
     out.append(("14N15N", M([("N", 14, 0, 0), ("N", 15, 0, 0)], [(0, 1, 3)])))
+    # every element once (symbol table, Hill order, prefix-sharing symbols), bonded in a chain ordered by a fixed shuffle
+    order = list(gen.SYMBOLS)
+    random.Random(118).shuffle(order)
+    out.append(("all118", M([(s, 0, 0, 0) for s in order], [(i, i + 1, 1) for i in range(117)])))
+    # more than a hundred atoms (three-digit indices), unsymmetrical
+    out.append(("chain105", M([("O", 0, 0, 0)] + [("C", 0, 0, 0)] * 103 + [("N", 15, 0, 0)], [(i, i + 1, 1) for i in range(104)])))
+    out.append(("bigmass", M([("U", 65536, 0, 0), ("U", 65535, 0, 0), ("H", 99999, 1, 0)], [(0, 1, 1), (1, 2, 1)])))
     hub = [("Fe", 0, 0, 0)] + [("C", 0, 0, 0)] * 12
     out.append(("hub12", M(hub, [(0, i, 1) for i in range(1, 13)] + [(i, i + 1, 1) for i in range(1, 12)])))
     return out
